@@ -66,6 +66,8 @@ pub fn sweep(panic_only: bool) -> (u64, Vec<(String, String)>) {
     let invalid: Vec<(&str, &str, bool)> = vec![
         ("syntax error on the second line", "2024/02/01 bad\n    Assets:Bank    (1 JPY\n    Equity\n", true),
         ("syntax error on the first line", "2024/02/31 bad\n    Assets:Bank    1 JPY\n    Equity\n", true),
+        ("syntax error at the end of the last line", "2024/02/01 bad\n    Assets:Bank    1 JPY\n    Equity  ]\n", true),
+        ("syntax error in the last posting's amount", "2024/02/01 bad\n    Assets:Bank    1 JPY\n    Equity    -1 JPY @\n", true),
         ("unbalanced", "2024/02/01 bad\n    Assets:Bank    1 JPY\n    Equity    -2 JPY\n", false),
         ("false assertion", "2024/02/01 bad\n    Assets:Bank    1 JPY = 5 JPY\n    Equity\n", false),
         ("two omitted amounts", "2024/02/01 bad\n    Assets:Bank\n    Equity\n", false),
